@@ -249,11 +249,11 @@ func (f *failure) mode() string {
 // isolate a root cause come first.
 func (f *failure) trigger() string {
 	k := &f.k
-	if k.Site != nil {
-		return fmt.Sprintf("seq %s %s %s form=%s ctx=%s", k.Site.Fam, k.Op, kindClass(k.T), k.Form, k.Ctx)
-	}
 	if t := knownTrigger(k); t != "" {
 		return t
+	}
+	if k.Site != nil {
+		return fmt.Sprintf("seq %s %s %s form=%s ctx=%s", k.Site.Fam, k.Op, kindClass(k.T), k.Form, k.Ctx)
 	}
 	t := k.T
 	if k.Cls == "int" {
@@ -442,6 +442,13 @@ func run(c *fw.Ctx) error {
 		// loop sites: their own programs (sites of one group share the operand tables)
 		elems := 0
 		enumerateSites(tb.sgroups, sel, func(k Case) {
+			if ex := excluded(&k); ex != "" {
+				exclCount[strings.Fields(ex)[0]]++
+				if pinWanted(ex, &k) {
+					pinned = append(pinned, k)
+				}
+				return
+			}
 			cur = append(cur, k)
 			elems += len(k.Site.Tup)
 			if len(cur) >= 150 || elems >= 25000 {
@@ -718,6 +725,23 @@ func validateNative(c *fw.Ctx, tb *tables, sample []*prog) error {
 		srcs = append(srcs, program(cs))
 		chunks = append(chunks, cs)
 	}
+	// every loop site with variable operands, in the assignment / statement context
+	var sites []Case
+	enumerateSites(tb.sgroups, all, func(k Case) {
+		if (k.Form == "VV" || k.Form == "V") && (k.Ctx == "assign" || k.Ctx == "stmt") {
+			sites = append(sites, k)
+		}
+	})
+	for i := 0; i < len(sites); i += 100 {
+		j := i + 100
+		if j > len(sites) {
+			j = len(sites)
+		}
+		cs := sites[i:j]
+		srcs = append(srcs, program(cs))
+		chunks = append(chunks, cs)
+	}
+	c.Extra["native_validated_loop_sites"] = len(sites)
 	for _, p := range sample {
 		srcs = append(srcs, p.src)
 		chunks = append(chunks, p.cases)
